@@ -430,6 +430,36 @@ def run(chk):
                                      f'`{ast.unparse(n.body[assigns[0]])}` makes the table visible (the `{ast.unparse(n.test)}` test of other threads now fails) before '
                                      f'`{ast.unparse(fills[0])[:50]}` has filled it: a thread that converts a text while another thread is inside the first call sees a '
                                      f'partial table and raises KeyError for a valid text - the server converts calls from five threads')
+        # ---- M8: identity comparison (`is` / `is not`) of values that are equal by VALUE: text, numbers, tuples.  Whether two equal strings are
+        #      the same object is an accident of interning (a literal of the source is interned, the same text read from a file or socket is
+        #      not), so the test succeeds in the unit tests and fails on data ------------------------------------------------------------------------
+        def _value_const(node, m_):
+            if isinstance(node, ast.Constant) and isinstance(node.value, (str, bytes, int, float, complex)) and not isinstance(node.value, bool):
+                return repr(node.value)
+            if isinstance(node, ast.Tuple) and isinstance(node.ctx, ast.Load):
+                return ast.unparse(node)
+            if isinstance(node, ast.Name):
+                r_ = repo.resolve_name(m_, node.id)
+                if r_ and r_[0] == 'const' and isinstance(r_[2], (ast.Constant, ast.Tuple, ast.JoinedStr)) and not (isinstance(r_[2], ast.Constant) and (r_[2].value is None or isinstance(r_[2].value, bool))):
+                    return f'{node.id} = {ast.unparse(r_[2])[:40]}'
+            return None
+        for m, c, fn in repo.all_functions():
+            if m is not mod:
+                continue
+            qual = f'{c.name}.{fn.name}' if c is not None else f'{rel}:{fn.name}'
+            for n in ast.walk(fn):
+                if isinstance(n, ast.Compare) and any(isinstance(o, (ast.Is, ast.IsNot)) for o in n.ops):
+                    operands = [n.left] + list(n.comparators)
+                    for i, o in enumerate(n.ops):
+                        if isinstance(o, (ast.Is, ast.IsNot)):
+                            for side in (operands[i], operands[i + 1]):
+                                vc = _value_const(side, m)
+                                if vc is not None:
+                                    chk.fail(rule, repo.where(m, n), qual, f'identity comparison with a value: `{ast.unparse(n)[:60]}`',
+                                             f'`{ast.unparse(n)}` compares by identity with the value {vc}: two equal texts / numbers need not be the same object (a literal of the '
+                                             f'source is interned, the same text parsed from a file, a message or built at run time is not), so the test is true in unit tests '
+                                             f'and false on data - compare with == / !=')
+                                    break
         # ---- M3: mutable default arguments mutated in the body ------------------------------------------------------------------
         for m, c, fn in repo.all_functions():
             if m is not mod:
